@@ -1,6 +1,143 @@
+import Model.Placement
 import Driver.Util
 namespace Driver.C10
-/-- placeholder: replaced when the property's model is built -/
-def step (_ : Unit) (_ : List String) : Unit × String := ((), "unimplemented")
-def init : Unit := ()
+open Placement
+
+/-- state = the cluster of the last `reset`: hosts in the order given (tokenRing.hosts) and the ring -/
+structure Cl where
+  hosts : List Host := []
+  ring : List Entry := []
+
+def init : Cl := {}
+
+def parseHost (s : String) : Option (Host × List Int) :=
+  match s.splitOn "/" with
+  | [i, d, r, ts] => do
+    let id ← i.toNat?
+    let dc ← d.toNat?
+    let rack ← r.toNat?
+    let toks ← if ts == "-" then some [] else (ts.splitOn ",").mapM String.toInt?
+    pure ({ id := id, dc := dc, rack := rack }, toks)
+  | _ => none
+
+def parseRfs (s : String) : Option (List (Nat × Nat)) :=
+  if s == "-" then some [] else
+  (s.splitOn ",").mapM (fun kv => match kv.splitOn "=" with
+    | [k, v] => do pure ((← k.toNat?), (← v.toNat?))
+    | _ => none)
+
+def showHosts (l : List Host) : String := "[" ++ ",".intercalate (l.map (fun h => toString h.id)) ++ "]"
+
+def showMap (rr : ReplicaRing) : String :=
+  if rr.isEmpty then "empty" else ";".intercalate (rr.map (fun e => toString e.1 ++ ":" ++ showHosts e.2))
+
+def showCrash : Crash → String
+  | .overflow => "crash:overflow"
+  | .noReplicas => "crash:no-replicas"
+  | .notPrimary => "crash:not-primary"
+  | .sizeMismatch => "crash:size-mismatch"
+
+def showFor (rr : ReplicaRing) (ts : List Int) : String :=
+  " ".intercalate (ts.map (fun t =>
+    (match replicasFor rr t with
+     | some e => showHosts e.2
+     | none => "nil")))
+
+def showPlain (rr : ReplicaRing) (ts : List Int) : String :=
+  " ".intercalate (ts.map (fun t => match replicasFor rr t with
+     | some e => showHosts e.2
+     | none => "[]"))
+
+def hasDup : List Host → Bool
+  | [] => false
+  | h :: l => l.contains h || hasDup l
+
+def parseOpt (s : String) : Option (List Char × OptVal) :=
+  match s.splitOn "=" with
+  | [k, v] =>
+    let key := (Util.parseHex k).map (fun bs => bs.map (fun b => Char.ofNat b.toNat))
+    match key with
+    | none => none
+    | some key =>
+      if v.startsWith "i:" then (v.drop 2).toString.toInt?.map (fun n => (key, OptVal.int n))
+      else if v.startsWith "s:" then
+        (Util.parseHex (v.drop 2).toString).map (fun bs => (key, OptVal.str (bs.map (fun b => Char.ofNat b.toNat))))
+      else some (key, OptVal.other)
+  | _ => none
+
+/-- insertion sort of strings (canonical order of a Go map) -/
+def insStr (s : String) : List String → List String
+  | [] => [s]
+  | x :: xs => if s ≤ x then s :: x :: xs else x :: insStr s xs
+
+def showStrategy : Strategy → String
+  | .simple rf => "simple rf=" ++ toString rf
+  | .nts dcs =>
+    let items := dcs.map (fun kv => String.ofList kv.1 ++ "=" ++ toString kv.2)
+    "nts " ++ ",".intercalate (items.foldr insStr [])
+  | .none_ => "nil"
+
+/-- ops (stateful; a sequence starts with `reset`):
+  reset <part> id/dc/rack/t,t,… …   → the ring `tok:id …` built by newTokenRing (part = partitioner, only used by the harness)
+  host t…                            → GetHostForToken per token: `id@tok`
+  simple rf                          → simpleStrategy.replicaMap, whole map
+  nts dc=rf,…                        → networkTopology.replicaMap, whole map or crash:<class>
+  simplefor rf t… / ntsfor rfs t…    → per token `replicasFor` (nil or the list)
+  ssimple rf t…                      → per token the replicas;  model answers with Spec.simple (proved equal)
+  snts rfs t…                        → per token the replicas or crash; model answers with Spec.nts unless the model
+                                       itself shows the recorded defects D1 (a node twice) / D2 (size-mismatch panic)
+  strategy <class-hex> k=v…          → getStrategy -/
+def step (s : Cl) (ws : List String) : Cl × String :=
+  match ws with
+  | "reset" :: _ :: hs =>
+    match hs.mapM parseHost with
+    | none => (s, "bad-op")
+    | some l =>
+      let ring := buildRing l
+      ({ hosts := l.map (·.1), ring := ring },
+        if ring.isEmpty then "empty" else " ".intercalate (ring.map (fun e => toString e.1 ++ ":" ++ toString e.2.id)))
+  | "host" :: ts =>
+    match ts.mapM String.toInt? with
+    | none => (s, "bad-op")
+    | some ts => (s, " ".intercalate (ts.map (fun t => match getHostForToken s.ring t with
+        | some e => toString e.2.id ++ "@" ++ toString e.1
+        | none => "nil")))
+  | ["simple", rf] =>
+    match rf.toNat? with
+    | none => (s, "bad-op")
+    | some rf => (s, showMap (simpleReplicaMap rf s.ring))
+  | ["nts", rfs] =>
+    match parseRfs rfs with
+    | none => (s, "bad-op")
+    | some rfs => (s, match ntsReplicaMap rfs s.hosts s.ring with
+        | .ok rr => showMap rr
+        | .error e => showCrash e)
+  | "simplefor" :: rf :: ts =>
+    match rf.toNat?, ts.mapM String.toInt? with
+    | some rf, some ts => (s, showFor (simpleReplicaMap rf s.ring) ts)
+    | _, _ => (s, "bad-op")
+  | "ntsfor" :: rfs :: ts =>
+    match parseRfs rfs, ts.mapM String.toInt? with
+    | some rfs, some ts => (s, match ntsReplicaMap rfs s.hosts s.ring with
+        | .ok rr => showFor rr ts
+        | .error e => showCrash e)
+    | _, _ => (s, "bad-op")
+  | "ssimple" :: rf :: ts =>
+    match rf.toNat?, ts.mapM String.toInt? with
+    | some rf, some ts => (s, " ".intercalate (ts.map (fun t => showHosts (Spec.simple s.ring rf t))))
+    | _, _ => (s, "bad-op")
+  | "snts" :: rfs :: ts =>
+    match parseRfs rfs, ts.mapM String.toInt? with
+    | some rfs, some ts => (s, match ntsReplicaMap rfs s.hosts s.ring with
+        | .error e => showCrash e                                  -- D2 (or any other panic) mirrored by the model
+        | .ok rr =>
+          if rr.any (fun e => hasDup e.2) then showPlain rr ts      -- D1 mirrored by the model
+          else " ".intercalate (ts.map (fun t => showHosts (Spec.nts s.ring rfs t))))
+    | _, _ => (s, "bad-op")
+  | "strategy" :: cls :: opts =>
+    match Util.parseHex cls, opts.mapM parseOpt with
+    | some c, some os => (s, showStrategy (getStrategy (c.map (fun b => Char.ofNat b.toNat)) os))
+    | _, _ => (s, "bad-op")
+  | _ => (s, "bad-op")
+
 end Driver.C10
